@@ -422,7 +422,7 @@ static std::string handle(const std::vector<std::string> &t);
 
 static bool replayable(const std::string &c) {
     static const std::set<std::string> s = {"fs", "hdr", "open", "blk", "sec", "arr", "set", "prop", "delblk", "delsec", "delarr", "rich",
-                                            "flush", "close", "hold", "drop", "battery", "dump"};
+                                            "flush", "close", "hold", "drop", "battery", "dump", "mutin"};
     return s.count(c) > 0;
 }
 
@@ -569,6 +569,15 @@ static std::string handle_inner(const std::vector<std::string> &t) {
     if (c == "sha0") { S.sha0 = sha_file(S.path); return "sha"; }
     if (c == "sha?") { return sha_file(S.path) == S.sha0 ? "sha-same" : "sha-DIFF"; }
     if (c == "romut" || c == "nomut" || c == "rwmut") return do_mut(t);
+    if (c == "mutin") {
+        // one mutator of the table inside the CURRENT session (meant for read-only sessions: the refused call must
+        // leave nothing behind - no open attribute, no extra reference on the file id)
+        need_session();
+        const MutEntry *e = find_entry(mut_table(), t.at(1));
+        if (!e) return t.at(1) + " UNKNOWN";
+        std::string res = run_entry(*e, S.f);
+        return t.at(1) + " " + res + " " + status_suffix();
+    }
     if (c == "battery") return battery();
     if (c == "flush") {
         need_session();
